@@ -231,6 +231,9 @@ class Interp:
             except (TypeError, ValueError, KeyError, IndexError, AttributeError) as e:
                 raise AbsRaise(f"{type(e).__name__}: {e}")
         if isinstance(f, Closure):
+            fs_ = self.__dict__.get("func_stubs")
+            if fs_ and f.func in fs_:
+                return fs_[f.func](*args, **kwargs)  # a rule replaces one repo function (by identity, not by name) with a model
             return self.call_func(f.func, f.env, args, kwargs, f.bound_self)
         if isinstance(f, ClassVal):
             obj = Obj(f.cls)
@@ -841,6 +844,8 @@ class Interp:
                 return o.cls.name
             raise AnalysisError(f"evaluator: class attribute {o.cls.name}.{attr}")
         if isinstance(o, tuple) and len(o) == 2 and o[0] == "module":
+            if attr in self.stubs:
+                return self.stubs[attr]  # a rule's stub applies to `module.name(...)` as it does to `name(...)`
             got = self.m._lookup_scope(o[1], attr)
             if got:
                 for g in got:
